@@ -52,6 +52,12 @@ impl Resp {
     pub fn broken_transport() -> Self {
         Resp { status: 999, headers: vec![], body: b"\x00\x01garbage that is not HTTP\r\n\r\n".to_vec() }
     }
+    /// A reply that promises `missing` more body bytes than it delivers and then closes the
+    /// connection: a download cut short after part of the body has arrived (status 998 is the
+    /// marker; the serve loop redirects the client to the raw fault port, which plays it out).
+    pub fn cut_short(body: Vec<u8>, missing: usize) -> Self {
+        Resp { status: 998, headers: vec![("X-Missing".into(), missing.to_string())], body }
+    }
     pub fn xml(body: String) -> Self {
         Resp {
             status: 200,
@@ -182,6 +188,19 @@ impl Sim {
                         Resp::status(404)
                     }
                 };
+                if resp.status == 998 {
+                    let missing = resp.headers.iter().find(|(k, _)| k == "X-Missing").and_then(|(_, v)| v.parse::<usize>().ok()).unwrap_or(1);
+                    if let Ok(mut m) = cuts().lock() {
+                        m.insert(n, (resp.body, missing));
+                    }
+                    let loc = format!("http://127.0.0.1:{}/cut/{}", fault_port(), n);
+                    let mut r = tiny_http::Response::from_data(Vec::new()).with_status_code(307);
+                    if let Ok(h) = tiny_http::Header::from_bytes(&b"Location"[..], loc.as_bytes()) {
+                        r = r.with_header(h);
+                    }
+                    let _ = rq.respond(r);
+                    continue;
+                }
                 if resp.status == 999 {
                     use std::io::Write;
                     let mut w = rq.into_writer();
@@ -217,6 +236,48 @@ impl Sim {
             m.remove(site);
         }
     }
+}
+
+fn cuts() -> &'static Mutex<HashMap<u64, (Vec<u8>, usize)>> {
+    static CUTS: OnceLock<Mutex<HashMap<u64, (Vec<u8>, usize)>>> = OnceLock::new();
+    CUTS.get_or_init(|| Mutex::new(HashMap::new()))
+}
+
+/// A raw TCP listener that plays out replies tiny_http cannot produce: a 200 whose body stops
+/// short of its Content-Length, followed by the connection being closed.
+fn fault_port() -> u16 {
+    static PORT: OnceLock<u16> = OnceLock::new();
+    *PORT.get_or_init(|| {
+        let l = std::net::TcpListener::bind("127.0.0.1:0").expect("bind loopback fault port");
+        let port = l.local_addr().map(|a| a.port()).expect("fault port");
+        std::thread::spawn(move || {
+            for conn in l.incoming() {
+                let Ok(mut c) = conn else { continue };
+                std::thread::spawn(move || {
+                    use std::io::{Read, Write};
+                    let _ = c.set_read_timeout(Some(std::time::Duration::from_secs(5)));
+                    let mut head = Vec::new();
+                    let mut b = [0u8; 1];
+                    while !head.ends_with(b"\r\n\r\n") && head.len() < 8192 {
+                        match c.read(&mut b) {
+                            Ok(1) => head.push(b[0]),
+                            _ => break,
+                        }
+                    }
+                    let line = String::from_utf8_lossy(&head);
+                    let id = line.split_whitespace().nth(1).and_then(|p| p.rsplit('/').next().map(|x| x.to_string())).and_then(|x| x.parse::<u64>().ok());
+                    let entry = id.and_then(|i| cuts().lock().ok().and_then(|mut m| m.remove(&i)));
+                    if let Some((body, missing)) = entry {
+                        let _ = write!(c, "HTTP/1.1 200 OK\r\nContent-Type: application/xml\r\nContent-Length: {}\r\n\r\n", body.len() + missing);
+                        let _ = c.write_all(&body);
+                        let _ = c.flush();
+                    }
+                    let _ = c.shutdown(std::net::Shutdown::Both);
+                });
+            }
+        });
+        port
+    })
 }
 
 static SIM: OnceLock<&'static Sim> = OnceLock::new();
